@@ -168,18 +168,19 @@ def polyhedron_body(sname, convex, batch):
         else:
             s = S.Polyhedron(H.arr(P), [rnp.array(f) for f in faces], faces_are_convex=True)
         rows = {"single": [q], "with_zero": [q, [0 * c for c in q], [-c for c in q]]}[batch]
-        res = s.compute_form_factor_amplitude(H.arr(rows))
+        rho = F(5, 4)
+        res = s.compute_form_factor_amplitude(H.arr(rows), density=H.num(rho))
         vol = sum((hi[0] - lo[0]) * (hi[1] - lo[1]) * (hi[2] - lo[2]) for lo, hi in boxes)
         for i, row in enumerate(rows):
             r_, i_ = _parts(res[i])
             if all((not hasattr(c, "num") and c == 0) or (hasattr(c, "num") and not c.num) for c in row):
-                H.claim_eq("F(0)=volume[%d]" % i, r_, vol)
+                H.claim_eq("F(0)=density*volume[%d]" % i, r_, rho * vol)
                 continue
             if not bool(H.and_(*[H.not_(H.eqb(c, 0)) for c in row])):
                 continue
             ore, oim = boxes_oracle(H, boxes, row)
-            H.claim_eq("F=fourier_transform.re[%d]" % i, r_, ore)
-            H.claim_eq("F=fourier_transform.im[%d]" % i, i_, oim)
+            H.claim_eq("F=density*fourier_transform.re[%d]" % i, r_, rho * ore)
+            H.claim_eq("F=density*fourier_transform.im[%d]" % i, i_, rho * oim)
 
     return body
 
